@@ -246,26 +246,47 @@ Section New.
 Variable T : Type.
 Variable d : T.
 
-Lemma new_ok : forall s e : pos, le2 s e -> box_cells s e <= U32MAX ->
+Lemma new_ok_usize : forall s e : pos, le2 s e -> box_cells s e <= U64MAX ->
   new d s e = Ok (mkRange s e (repeat d (N.to_nat (box_cells s e)))).
 Proof.
   intros [sr sc] [er ec] [H1 H2] Hb. unfold box_cells in *. cbn [fst snd] in *.
-  unfold new, pos_le_lex, sub32, add32, mul32. cbn [fst snd].
+  unfold new, pos_le_lex, sub32. cbn [fst snd].
   destruct ((sr <? er) || ((sr =? er) && (sc <=? ec))) eqn:E0; [|lia]. cbn [negb].
   destruct (sr <=? er) eqn:E1; [|lia]. cbn [obind].
-  destruct (er - sr + 1 <=? U32MAX) eqn:E2; [|nia]. cbn [obind].
-  destruct (sc <=? ec) eqn:E3; [|lia]. cbn [obind].
-  destruct (ec - sc + 1 <=? U32MAX) eqn:E4; [|nia]. cbn [obind].
-  destruct ((er - sr + 1) * (ec - sc + 1) <=? U32MAX) eqn:E5; [|lia]. cbn [obind].
+  destruct (sc <=? ec) eqn:E3; [|lia]. cbn [obind]. cbv zeta.
+  destruct (U64MAX <? (er - sr + 1) * (ec - sc + 1)) eqn:E5; [lia|].
   reflexivity.
 Qed.
 
-Lemma new_spec : forall (s e : pos),
-    le2 s e -> box_cells s e <= U32MAX ->
+Lemma U32_le_U64 : forall n, n <= U32MAX -> n <= U64MAX.
+Proof. intros n H. unfold U32MAX, U64MAX in *. lia. Qed.
+
+Lemma new_ok : forall s e : pos, le2 s e -> box_cells s e <= U32MAX ->
+  new d s e = Ok (mkRange s e (repeat d (N.to_nat (box_cells s e)))).
+Proof. intros s e Hle Hb. apply new_ok_usize; [assumption|apply U32_le_U64; assumption]. Qed.
+
+(* Range::new panics exactly when the corners are not ordered componentwise (the documented
+   precondition) or the rectangle has more than usize::MAX cells *)
+Lemma new_panic_iff : forall s e : pos,
+  new d s e = Panic <-> ~ (le2 s e /\ box_cells s e <= U64MAX).
+Proof.
+  intros [sr sc] [er ec]. unfold le2, box_cells. cbn [fst snd]. split.
+  - intros Hp [[H1 H2] Hb].
+    rewrite (@new_ok_usize (sr, sc) (er, ec)) in Hp; [discriminate|split; assumption|exact Hb].
+  - intros Hn. unfold new, pos_le_lex, sub32. cbn [fst snd].
+    destruct ((sr <? er) || ((sr =? er) && (sc <=? ec))) eqn:E0; [|reflexivity]. cbn [negb].
+    destruct (sr <=? er) eqn:E1; [|reflexivity]. cbn [obind].
+    destruct (sc <=? ec) eqn:E3; [|reflexivity]. cbn [obind]. cbv zeta.
+    destruct (U64MAX <? (er - sr + 1) * (ec - sc + 1)) eqn:E5; [reflexivity|].
+    exfalso. apply Hn. lia.
+Qed.
+
+Lemma new_spec_usize : forall (s e : pos),
+    le2 s e -> box_cells s e <= U64MAX ->
     exists r, new d s e = Ok r /\ Wf r /\ rect r = Some (s, e) /\
       forall q, get_value r q = if in_box s e q then Some d else None.
 Proof.
-  intros s e Hle Hb. rewrite (new_ok Hle Hb). eexists; split; [reflexivity|].
+  intros s e Hle Hb. rewrite (new_ok_usize Hle Hb). eexists; split; [reflexivity|].
   destruct s as [sr sc], e as [er ec]. destruct Hle as [H1 H2]. unfold box_cells in *.
   cbn [fst snd] in *.
   assert (Hl : N.of_nat (length (repeat d (N.to_nat ((er - sr + 1) * (ec - sc + 1)))))
@@ -275,6 +296,30 @@ Proof.
   destruct (in_box (sr, sc) (er, ec) q) eqn:Hq; [|reflexivity].
   apply nth_error_repeat. pose proof (@box_index_lt sr sc er ec q _ Hq Hl) as Hi.
   rewrite repeat_length in Hi. exact Hi.
+Qed.
+
+Lemma new_spec : forall (s e : pos),
+    le2 s e -> box_cells s e <= U32MAX ->
+    exists r, new d s e = Ok r /\ Wf r /\ rect r = Some (s, e) /\
+      forall q, get_value r q = if in_box s e q then Some d else None.
+Proof. intros s e Hle Hb. apply new_spec_usize; [assumption|apply U32_le_U64; assumption]. Qed.
+
+(* the size of the allocation is the number of cells of the rectangle *)
+Lemma new_requested : forall (s e : pos) r, new d s e = Ok r ->
+  N.of_nat (length (r_inner r)) = requested_new s e /\ requested_new s e = box_cells s e.
+Proof.
+  intros s e r Hr. split; [|reflexivity].
+  destruct (N.leb_spec (box_cells s e) U64MAX) as [Hb|Hb].
+  - assert (Hle : le2 s e).
+    { destruct s as [sr sc], e as [er ec]. unfold le2. cbn [fst snd].
+      unfold new, pos_le_lex, sub32 in Hr. cbn [fst snd] in Hr.
+      destruct ((sr <? er) || ((sr =? er) && (sc <=? ec))) eqn:E0; [|discriminate]. cbn [negb] in Hr.
+      destruct (sr <=? er) eqn:E1; [|discriminate]. cbn [obind] in Hr.
+      destruct (sc <=? ec) eqn:E3; [|discriminate]. lia. }
+    rewrite (new_ok_usize Hle Hb) in Hr. injection Hr as <-. cbn [r_inner].
+    rewrite repeat_length, N2Nat.id. reflexivity.
+  - exfalso. assert (Hp : new d s e = Panic) by (apply new_panic_iff; intros [_ H]; lia).
+    rewrite Hp in Hr. discriminate.
 Qed.
 
 End New.
@@ -857,15 +902,15 @@ Proof.
   apply nth_error_None in En. pose proof (@box_index_lt sr sc er ec q _ Eb Hl). lia.
 Qed.
 
-Lemma window_spec_sec : forall (r : range T) (s e : pos),
-    Wf r -> le2 s e -> box_cells s e <= U32MAX ->
+Lemma window_spec_usize_sec : forall (r : range T) (s e : pos),
+    Wf r -> le2 s e -> box_cells s e <= U64MAX ->
     exists w, window d r s e = Ok w /\ Wf w /\ rect w = Some (s, e) /\
       forall q, get_value w q = if in_box s e q then Some (cell_or d r q) else None.
 Proof.
   intros r s e HWf Hle Hb.
-  destruct (new_spec d Hle Hb) as (other & Hnew & HWfo & Hrecto & Hgeto).
-  rewrite (new_ok d Hle Hb) in Hnew. injection Hnew as Hother.
-  unfold window. rewrite (new_ok d Hle Hb). cbn [obind]. rewrite Hother.
+  destruct (new_spec_usize d Hle Hb) as (other & Hnew & HWfo & Hrecto & Hgeto).
+  rewrite (new_ok_usize d Hle Hb) in Hnew. injection Hnew as Hother.
+  unfold window. rewrite (new_ok_usize d Hle Hb). cbn [obind]. rewrite Hother.
   destruct r as [[ssr ssc] [ser sec] l], s as [osr osc], e as [oer oec]. cbn [r_start r_end].
   destruct (is_empty (mkRange (ssr, ssc) (ser, sec) l)) eqn:Hemp.
   { (* empty source *)
@@ -956,7 +1001,25 @@ Proof.
     cbn [andb]; try reflexivity. lia.
 Qed.
 
+Lemma window_spec_sec : forall (r : range T) (s e : pos),
+    Wf r -> le2 s e -> box_cells s e <= U32MAX ->
+    exists w, window d r s e = Ok w /\ Wf w /\ rect w = Some (s, e) /\
+      forall q, get_value w q = if in_box s e q then Some (cell_or d r q) else None.
+Proof.
+  intros r s e HWf Hle Hb. apply window_spec_usize_sec; [assumption|assumption|].
+  unfold U32MAX, U64MAX in *. lia.
+Qed.
+
 End Window.
+
+(* Range::range with the cell count bounded by usize::MAX only (what Range::new needs since
+   19d4f5b); window_spec below is the instance for at most u32::MAX cells *)
+Lemma window_spec_usize :
+  forall (T : Type) (d : T) (r : range T) (s e : pos),
+    Wf r -> le2 s e -> box_cells s e <= U64MAX ->
+    exists w, window d r s e = Ok w /\ Wf w /\ rect w = Some (s, e) /\
+      forall q, get_value w q = if in_box s e q then Some (cell_or d r q) else None.
+Proof. intros T d. apply window_spec_usize_sec. Qed.
 
 Lemma window_spec :
   forall (T : Type) (d : T) (r : range T) (s e : pos),
@@ -976,11 +1039,13 @@ Notation row c := (fst (fst c)).
 Notation col c := (snd (fst c)).
 Notation minstep := (fun (m : N) (c : pos * T) => if snd (fst c) <? m then snd (fst c) else m).
 Notation maxstep := (fun (m : N) (c : pos * T) => if m <? snd (fst c) then snd (fst c) else m).
+Notation rminstep := (fun (m : N) (c : pos * T) => if fst (fst c) <? m then fst (fst c) else m).
+Notation rmaxstep := (fun (m : N) (c : pos * T) => if m <? fst (fst c) then fst (fst c) else m).
 
 Lemma fold_bbox : forall (l : list (pos * T)) r0 c0 r1 c1,
   fold_left (fun b p => bbox (Some b) p) (map fst l) ((r0, c0), (r1, c1)) =
-    ((fold_left (fun m c => N.min m (row c)) l r0, fold_left minstep l c0),
-     (fold_left (fun m c => N.max m (row c)) l r1, fold_left maxstep l c1)).
+    ((fold_left rminstep l r0, fold_left minstep l c0),
+     (fold_left rmaxstep l r1, fold_left maxstep l c1)).
 Proof.
   induction l as [|c l IH]; intros r0 c0 r1 c1; [reflexivity|].
   cbn [map fold_left]. unfold bbox at 2. cbn [fst snd]. rewrite IH.
@@ -988,69 +1053,120 @@ Proof.
     by (destruct (col c <? c0) eqn:E; lia).
   replace (N.max c1 (col c)) with (if c1 <? col c then col c else c1)
     by (destruct (c1 <? col c) eqn:E; lia).
+  replace (N.min r0 (row c)) with (if row c <? r0 then row c else r0)
+    by (destruct (row c <? r0) eqn:E; lia).
+  replace (N.max r1 (row c)) with (if r1 <? row c then row c else r1)
+    by (destruct (r1 <? row c) eqn:E; lia).
   reflexivity.
+Qed.
+
+Lemma fold_minf_bounds : forall (f : pos * T -> N) (l : list (pos * T)) m,
+  fold_left (fun m c => if f c <? m then f c else m) l m <= m /\
+  forall c, In c l -> fold_left (fun m c => if f c <? m then f c else m) l m <= f c.
+Proof.
+  intros f. induction l as [|x l IH]; intros m; cbn [fold_left].
+  - split; [lia|]. intros c [].
+  - destruct (IH (if f x <? m then f x else m)) as [Ha Hb].
+    destruct (f x <? m) eqn:E; (split; [lia|]); intros c [<-|Hc]; try lia; apply Hb; assumption.
+Qed.
+
+Lemma fold_maxf_bounds : forall (f : pos * T -> N) (l : list (pos * T)) m,
+  m <= fold_left (fun m c => if m <? f c then f c else m) l m /\
+  forall c, In c l -> f c <= fold_left (fun m c => if m <? f c then f c else m) l m.
+Proof.
+  intros f. induction l as [|x l IH]; intros m; cbn [fold_left].
+  - split; [lia|]. intros c [].
+  - destruct (IH (if m <? f x then f x else m)) as [Ha Hb].
+    destruct (m <? f x) eqn:E; (split; [lia|]); intros c [<-|Hc]; try lia; apply Hb; assumption.
 Qed.
 
 Lemma fold_min_bounds : forall (l : list (pos * T)) m,
   fold_left minstep l m <= m /\ forall c, In c l -> fold_left minstep l m <= col c.
-Proof.
-  induction l as [|x l IH]; intros m; cbn [fold_left].
-  - split; [lia|]. intros c [].
-  - destruct (IH (if col x <? m then col x else m)) as [Ha Hb].
-    destruct (col x <? m) eqn:E; (split; [lia|]); intros c [<-|Hc]; try lia; apply Hb; assumption.
-Qed.
+Proof. intros l m. exact (fold_minf_bounds (fun c => col c) l m). Qed.
 
 Lemma fold_max_bounds : forall (l : list (pos * T)) m,
   m <= fold_left maxstep l m /\ forall c, In c l -> col c <= fold_left maxstep l m.
+Proof. intros l m. exact (fold_maxf_bounds (fun c => col c) l m). Qed.
+
+Lemma fold_rmin_bounds : forall (l : list (pos * T)) m,
+  fold_left rminstep l m <= m /\ forall c, In c l -> fold_left rminstep l m <= row c.
+Proof. intros l m. exact (fold_minf_bounds (fun c => row c) l m). Qed.
+
+Lemma fold_rmax_bounds : forall (l : list (pos * T)) m,
+  m <= fold_left rmaxstep l m /\ forall c, In c l -> row c <= fold_left rmaxstep l m.
+Proof. intros l m. exact (fold_maxf_bounds (fun c => row c) l m). Qed.
+
+(* the four running bounds enclose every cell, whatever the order of the cells *)
+Lemma sparse_bounds_enclose : forall (cs : list (pos * T)) rs cmin re cmax,
+  sparse_bounds cs = ((rs, cmin), (re, cmax)) ->
+  forall c, In c cs -> rs <= row c /\ row c <= re /\ cmin <= col c /\ col c <= cmax.
 Proof.
-  induction l as [|x l IH]; intros m; cbn [fold_left].
-  - split; [lia|]. intros c [].
-  - destruct (IH (if m <? col x then col x else m)) as [Ha Hb].
-    destruct (m <? col x) eqn:E; (split; [lia|]); intros c [<-|Hc]; try lia; apply Hb; assumption.
+  unfold pos. intros cs rs cmin re cmax Hb c Hc. unfold sparse_bounds in Hb. cbv zeta in Hb.
+  injection Hb as <- <- <- <-.
+  split; [apply (fold_rmin_bounds cs U32MAX); assumption|].
+  split; [apply (fold_rmax_bounds cs 0); assumption|].
+  split; [apply (fold_min_bounds cs U32MAX); assumption|].
+  apply (fold_max_bounds cs 0); assumption.
 Qed.
 
-Lemma last_default : forall (A : Type) (l : list A) x a b, last (x :: l) a = last (x :: l) b.
+(* for u32 coordinates they are the tight bounding box *)
+Lemma sparse_bounds_tight : forall (c0 : pos * T) (rest : list (pos * T)),
+  (forall c, In c (c0 :: rest) -> row c <= U32MAX /\ col c <= U32MAX) ->
+  tight_bbox (map fst (c0 :: rest)) = Some (sparse_bounds (c0 :: rest)).
 Proof.
-  intros A l. induction l as [|y l IH]; intros x a b; [reflexivity|].
-  change (last (x :: y :: l) a) with (last (y :: l) a).
-  change (last (x :: y :: l) b) with (last (y :: l) b). apply IH.
+  unfold pos. intros c0 rest Hbnd. destruct (Hbnd c0 (or_introl eq_refl)) as [Hr0 Hc0].
+  cbn [map tight_bbox]. destruct c0 as [[r0 k0] v0]. cbn [fst snd] in *.
+  rewrite fold_bbox. unfold sparse_bounds. cbv zeta. cbn [fold_left fst snd].
+  destruct (k0 <? U32MAX) eqn:E1; destruct (0 <? k0) eqn:E2;
+  destruct (r0 <? U32MAX) eqn:E3; destruct (0 <? r0) eqn:E4;
+    repeat f_equal; lia.
 Qed.
 
-Lemma sorted_rows : forall (l : list (pos * T)) c0, sorted_by_row (c0 :: l) ->
-  (forall c, In c (c0 :: l) -> row c0 <= row c /\ row c <= row (last (c0 :: l) c0)) /\
-  fold_left (fun m c => N.min m (row c)) l (row c0) = row c0 /\
-  fold_left (fun m c => N.max m (row c)) l (row c0) = row (last (c0 :: l) c0).
+(* the loop that stores the cells never panics once the bounds enclose the cells *)
+Lemma fs_fold_ok : forall rs cmin cols len (cells : list (N * N * T)) (v : list T),
+  (forall c, In c cells -> rs <= row c /\ cmin <= col c) ->
+  exists v',
+    fold_left (fun (acc : outcome (list T)) c =>
+                 do v <- acc;
+                 do row <- sub32 (fst (fst c)) rs;
+                 do col <- sub32 (snd (fst c)) cmin;
+                 let idx := sat_mul_usize row cols + col in
+                 if idx <? len then Ok (list_set v (N.to_nat idx) (snd c)) else Ok v)
+              cells (Ok v) = Ok v' /\
+    length v' = length v.
 Proof.
-  induction l as [|c1 l IH]; intros c0 Hs.
-  - split; [|split; reflexivity]. intros c [<-|[]]. cbn [last]. lia.
-  - destruct Hs as [H01 Hs]. destruct (IH c1 Hs) as (Hb & Hmin & Hmax).
-    change (last (c0 :: c1 :: l) c0) with (last (c1 :: l) c0).
-    rewrite (last_default l c1 c0 c1).
-    assert (Hl : row c1 <= row (last (c1 :: l) c1)) by (apply Hb; left; reflexivity).
-    split; [|split].
-    + intros c [<-|Hc]; [lia|]. destruct (Hb c Hc). lia.
-    + cbn [fold_left]. rewrite N.min_l by assumption.
-      clear - Hb H01. revert Hb. generalize (row (last (c1 :: l) c1)). intros top Hb.
-      assert (Hall : forall c, In c l -> row c0 <= row c).
-      { intros c Hc. destruct (Hb c (or_intror Hc)). lia. }
-      clear Hb. induction l as [|x l IHl]; [reflexivity|]. cbn [fold_left].
-      rewrite N.min_l by (apply Hall; left; reflexivity). apply IHl.
-      intros c Hc. apply Hall. right. assumption.
-    + cbn [fold_left]. rewrite N.max_r by assumption. exact Hmax.
+  intros rs cmin cols len cells.
+  match goal with |- context [fold_left ?f cells _] => set (F := f) end.
+  induction cells as [|c cells IH]; intros v Hin.
+  - exists v. split; reflexivity.
+  - destruct (Hin c (or_introl eq_refl)) as (Hc1 & Hc2).
+    cbn [fold_left].
+    assert (HF : exists v1, F (Ok v) c = Ok v1 /\ length v1 = length v).
+    { unfold F. cbn [obind]. unfold sub32.
+      destruct (rs <=? row c) eqn:E1; [|lia]. cbn [obind].
+      destruct (cmin <=? col c) eqn:E2; [|lia]. cbn [obind]. cbv zeta.
+      destruct (sat_mul_usize (row c - rs) cols + (col c - cmin) <? len) eqn:E3.
+      - eexists; split; [reflexivity|apply list_set_length].
+      - eexists; split; reflexivity. }
+    destruct HF as (v1 & HF & Hl1). rewrite HF.
+    destruct (IH v1) as (v' & Hv' & Hl').
+    { intros c' Hc'. apply Hin. right. assumption. }
+    exists v'. split; [exact Hv'|]. rewrite Hl'. exact Hl1.
 Qed.
 
-(* the loop that stores the cells *)
+(* ... and places every cell when all indices exist *)
 Lemma fs_fold : forall rs cmin cols len (cells : list (N * N * T)) (v : list T),
   N.of_nat (length v) = len ->
   (forall c, In c cells ->
      rs <= row c /\ cmin <= col c /\ col c - cmin < cols /\
+     (row c - rs) * cols <= U64MAX /\
      (row c - rs) * cols + (col c - cmin) < len) ->
   exists v',
     fold_left (fun (acc : outcome (list T)) c =>
                  do v <- acc;
                  do row <- sub32 (fst (fst c)) rs;
                  do col <- sub32 (snd (fst c)) cmin;
-                 let idx := row * cols + col in
+                 let idx := sat_mul_usize row cols + col in
                  if idx <? len then Ok (list_set v (N.to_nat idx) (snd c)) else Ok v)
               cells (Ok v) = Ok v' /\
     length v' = length v /\
@@ -1064,13 +1180,14 @@ Proof.
   match goal with |- context [fold_left ?f cells _] => set (F := f) end.
   revert v. induction cells as [|c cells IH]; intros v Hlen Hin.
   - exists v. split; [reflexivity|]. split; [reflexivity|]. intros q a _ _ _ H. exact H.
-  - destruct (Hin c (or_introl eq_refl)) as (Hc1 & Hc2 & Hc3 & Hc4).
+  - destruct (Hin c (or_introl eq_refl)) as (Hc1 & Hc2 & Hc3 & Hc5 & Hc4).
     cbn [fold_left].
     assert (HF : F (Ok v) c =
                  Ok (list_set v (N.to_nat ((row c - rs) * cols + (col c - cmin))) (snd c))).
     { unfold F. cbn [obind]. unfold sub32.
       destruct (rs <=? row c) eqn:E1; [|lia]. cbn [obind].
-      destruct (cmin <=? col c) eqn:E2; [|lia]. cbn [obind].
+      destruct (cmin <=? col c) eqn:E2; [|lia]. cbn [obind]. cbv zeta.
+      unfold sat_mul_usize. rewrite N.min_l by exact Hc5.
       destruct ((row c - rs) * cols + (col c - cmin) <? len) eqn:E3; [|lia]. reflexivity. }
     rewrite HF.
     destruct (IH (list_set v (N.to_nat ((row c - rs) * cols + (col c - cmin))) (snd c)))
@@ -1090,48 +1207,88 @@ Proof.
       apply pos_eqb_true in Heq. congruence.
 Qed.
 
-Lemma from_sparse_spec_sec : forall (cs : list (pos * T)),
-    pre empty (OFromSparse cs) ->
+(* Totality: from_sparse never panics, for any list of cells in any order; the rectangle it
+   reports is [sparse_bounds] and its inner vector has exactly [requested_from_sparse] cells *)
+Lemma from_sparse_total_sec : forall (cs : list (pos * T)),
+  exists r, from_sparse d cs = Ok r /\
+    N.of_nat (length (r_inner r)) = requested_from_sparse cs /\
+    (cs <> [] -> (r_start r, r_end r) = sparse_bounds cs).
+Proof.
+  intros cs. destruct cs as [|c0 rest].
+  - exists empty. split; [reflexivity|]. split; [reflexivity|]. intros H. congruence.
+  - unfold from_sparse, requested_from_sparse.
+    destruct (sparse_bounds (c0 :: rest)) as [[rs cmin] [re cmax]] eqn:Eb.
+    pose proof (@sparse_bounds_enclose _ _ _ _ _ Eb) as Henc.
+    destruct (Henc c0 (or_introl eq_refl)) as (Hr1 & Hr2 & Hk1 & Hk2).
+    unfold sub32 at 1. destruct (cmin <=? cmax) eqn:E1; [|lia]. cbn [obind]. cbv zeta.
+    unfold sub32 at 1. destruct (rs <=? re) eqn:E3; [|lia]. cbn [obind].
+    destruct (@fs_fold_ok rs cmin (cmax - cmin + 1)
+                (sat_mul_usize (cmax - cmin + 1) (re - rs + 1)) (c0 :: rest)
+                (repeat d (N.to_nat (sat_mul_usize (cmax - cmin + 1) (re - rs + 1)))))
+      as (v' & Hv' & Hlen').
+    { intros c Hc. destruct (Henc c Hc) as (H1 & _ & H3 & _). split; assumption. }
+    match goal with
+    | |- context [obind ?X _] => replace X with (Ok v') by (symmetry; exact Hv')
+    end.
+    cbn [obind]. eexists; split; [reflexivity|]. cbn [r_start r_end r_inner].
+    split; [|intros _; reflexivity].
+    rewrite Hlen', repeat_length. apply N2Nat.id.
+Qed.
+
+Lemma from_sparse_spec_unsorted_sec : forall (cs : list (pos * T)),
+    pre_sparse cs ->
     exists r, from_sparse d cs = Ok r /\ Wf r /\
       rect r = tight_bbox (map fst cs) /\
       forall q, get_value r q = if in_rect r q then Some (last_write d cs q) else None.
 Proof.
-  intros cs Hpre. cbn [pre] in Hpre. destruct Hpre as (Hsorted & Hbnd & Hbox).
+  intros cs [Hbnd Hbox].
   destruct cs as [|c0 rest].
   - exists empty. split; [reflexivity|]. split; [left; reflexivity|]. split; [reflexivity|].
     intro q. rewrite get_value_empty by reflexivity. reflexivity.
-  - destruct (@sorted_rows rest c0 Hsorted) as (Hrows & Hminr & Hmaxr).
-    unfold from_sparse. cbv zeta. unfold pos in *.
-    set (cmin := fold_left _ (c0 :: rest) U32MAX).
-    set (cmax := fold_left _ (c0 :: rest) 0).
-    set (re := fst (fst (last (c0 :: rest) c0))) in *.
-    set (rs := fst (fst c0)) in *.
-    assert (Hc0 : snd (fst c0) <= U32MAX) by (apply Hbnd; left; reflexivity).
-    assert (Htb : tight_bbox (map fst (c0 :: rest)) = Some ((rs, cmin), (re, cmax))).
-    { cbn [map tight_bbox]. destruct c0 as [[r0 k0] v0]. cbn [fst snd] in *.
-      rewrite fold_bbox. unfold rs in Hminr, Hmaxr. rewrite Hminr, Hmaxr.
-      unfold cmin, cmax. cbn [fold_left fst snd].
-      destruct (k0 <? U32MAX) eqn:E1; destruct (0 <? k0) eqn:E2;
-        repeat f_equal; lia. }
-    rewrite Htb in *.
-    destruct Hbox as [Hbox1 Hbox2]. cbn [fst snd] in Hbox1, Hbox2.
-    assert (Hcols : forall c, In c (c0 :: rest) -> cmin <= snd (fst c) /\ snd (fst c) <= cmax).
-    { intros c Hc. split.
-      - unfold cmin. apply (fold_min_bounds (c0 :: rest) U32MAX). assumption.
-      - unfold cmax. apply (fold_max_bounds (c0 :: rest) 0). assumption. }
-    assert (Hcc : cmin <= cmax) by (destruct (Hcols c0 (or_introl eq_refl)); lia).
-    assert (Hrr : rs <= re) by (destruct (Hrows c0 (or_introl eq_refl)); lia).
-    clearbody cmin cmax. clear Hminr Hmaxr Hbnd Hc0 Hsorted.
-    unfold sub32 at 1. destruct (cmin <=? cmax) eqn:E1; [|lia]. cbn [obind].
-    unfold add32 at 1. destruct (cmax - cmin + 1 <=? U32MAX) eqn:E2; [|lia]. cbn [obind].
+  - rewrite (sparse_bounds_tight Hbnd) in *.
+    unfold from_sparse.
+    destruct (sparse_bounds (c0 :: rest)) as [[rs cmin] [re cmax]] eqn:Eb.
+    pose proof (@sparse_bounds_enclose _ _ _ _ _ Eb) as Henc.
+    destruct (Henc c0 (or_introl eq_refl)) as (Hr1 & Hr2 & Hk1 & Hk2).
+    assert (Hcc : cmin <= cmax) by lia. assert (Hrr : rs <= re) by lia.
+    assert (Hre : re <= U32MAX /\ cmax <= U32MAX).
+    { unfold sparse_bounds in Eb. cbv zeta in Eb. injection Eb as _ _ <- <-.
+      clear - Hbnd. split.
+      - assert (H : forall l m, (forall c : pos * T, In c l -> row c <= U32MAX) -> m <= U32MAX ->
+                      fold_left rmaxstep l m <= U32MAX).
+        { induction l as [|x l IH]; intros m Hl Hm; [exact Hm|]. cbn [fold_left]. apply IH.
+          - intros c Hc. apply Hl. right. assumption.
+          - destruct (m <? row x); [apply Hl; left; reflexivity|assumption]. }
+        apply H.
+        + intros c Hc. apply Hbnd. first [assumption | right; assumption].
+        + destruct (Hbnd c0 (or_introl eq_refl)) as [Hb1 Hb2]. unfold pos in *.
+          try destruct (0 <? row c0); unfold U32MAX in *; lia.
+      - assert (H : forall l m, (forall c : pos * T, In c l -> col c <= U32MAX) -> m <= U32MAX ->
+                      fold_left maxstep l m <= U32MAX).
+        { induction l as [|x l IH]; intros m Hl Hm; [exact Hm|]. cbn [fold_left]. apply IH.
+          - intros c Hc. apply Hl. right. assumption.
+          - destruct (m <? col x); [apply Hl; left; reflexivity|assumption]. }
+        apply H.
+        + intros c Hc. apply Hbnd. first [assumption | right; assumption].
+        + destruct (Hbnd c0 (or_introl eq_refl)) as [Hb1 Hb2]. unfold pos in *.
+          try destruct (0 <? col c0); unfold U32MAX in *; lia. }
+    destruct Hre as [Hre Hce].
+    unfold box_cells in Hbox. cbn [fst snd] in Hbox.
+    unfold sub32 at 1. destruct (cmin <=? cmax) eqn:E1; [|lia]. cbn [obind]. cbv zeta.
     unfold sub32 at 1. destruct (rs <=? re) eqn:E3; [|lia]. cbn [obind].
-    unfold add32 at 1. destruct (re - rs + 1 <=? U32MAX) eqn:E4; [|lia]. cbn [obind].
+    assert (Hsat : sat_mul_usize (cmax - cmin + 1) (re - rs + 1) = (cmax - cmin + 1) * (re - rs + 1)).
+    { unfold sat_mul_usize. apply N.min_l. rewrite N.mul_comm. exact Hbox. }
+    rewrite Hsat.
     destruct (@fs_fold rs cmin (cmax - cmin + 1) ((cmax - cmin + 1) * (re - rs + 1)) (c0 :: rest)
                 (repeat d (N.to_nat ((cmax - cmin + 1) * (re - rs + 1)))))
       as (v' & Hv' & Hlen' & Hnth').
     { rewrite repeat_length. apply N2Nat.id. }
-    { intros c Hc. destruct (Hcols c Hc) as [Hk1 Hk2]. destruct (Hrows c Hc) as [Hr1 Hr2].
-      clear - Hk1 Hk2 Hr1 Hr2. nia. }
+    { intros c Hc. destruct (Henc c Hc) as (Hr1' & Hr2' & Hk1' & Hk2'). unfold pos in *.
+      split; [assumption|]. split; [assumption|]. split; [lia|]. split.
+      - apply N.le_trans with (U32MAX * (U32MAX + 1)).
+        + apply N.mul_le_mono; lia.
+        + unfold U32MAX, U64MAX. lia.
+      - clear - Hr1' Hr2' Hk1' Hk2'. nia. }
     match goal with
     | |- context [obind ?X _] => replace X with (Ok v') by (symmetry; exact Hv')
     end.
@@ -1141,15 +1298,95 @@ Proof.
     split; [apply Wf_mk; assumption|]. split; [apply rect_mk; assumption|].
     intro q. unfold in_rect. rewrite (@rect_mk T rs cmin re cmax v' Hlen).
     rewrite (@get_value_mk T rs cmin re cmax v' q Hrr Hcc Hlen).
-    destruct (in_box (rs, cmin) (re, cmax) q) eqn:Eb; [|reflexivity].
+    destruct (in_box (rs, cmin) (re, cmax) q) eqn:Ebx; [|reflexivity].
     rewrite <- !N2Nat.inj_mul, <- !N2Nat.inj_add. unfold last_write.
     assert (Hq : rs <= fst q /\ fst q <= re /\ cmin <= snd q /\ snd q <= cmax)
-      by (clear - Eb; unfold in_box in Eb; cbn [fst snd] in Eb; lia).
+      by (clear - Ebx; unfold in_box in Ebx; cbn [fst snd] in Ebx; lia).
     apply Hnth'; try (clear - Hq; lia).
     apply nth_error_repeat. clear - Hq. nia.
 Qed.
 
+(* with the cells sorted by row (the old precondition) the start row is the first cell's row,
+   as in the code before 3140dd1 *)
+Lemma sorted_first_min : forall (l : list (pos * T)) c0, sorted_by_row (c0 :: l) ->
+  forall c, In c l -> row c0 <= row c.
+Proof.
+  induction l as [|c1 l IH]; intros c0 Hs c Hc; [destruct Hc|].
+  destruct Hs as [H01 Hs]. destruct Hc as [<-|Hc]; [exact H01|].
+  specialize (IH c1 Hs c Hc). lia.
+Qed.
+
+Lemma fold_rmin_const : forall (l : list (pos * T)) m,
+  (forall c, In c l -> m <= row c) -> fold_left rminstep l m = m.
+Proof.
+  induction l as [|x l IH]; intros m H; [reflexivity|]. cbn [fold_left].
+  pose proof (H x (or_introl eq_refl)) as Hx.
+  destruct (row x <? m) eqn:E; [lia|]. apply IH. intros c Hc. apply H. right. assumption.
+Qed.
+
+Lemma from_sparse_start_row_sorted_sec : forall (c0 : pos * T) (rest : list (pos * T)) (r : range T),
+  sorted_by_row (c0 :: rest) -> row c0 <= U32MAX ->
+  from_sparse d (c0 :: rest) = Ok r -> fst (r_start r) = row c0.
+Proof.
+  intros c0 rest r Hs H0 Hr.
+  destruct (from_sparse_total_sec (c0 :: rest)) as (r' & Hr' & _ & Hb).
+  rewrite Hr in Hr'. injection Hr' as <-.
+  specialize (Hb ltac:(discriminate)).
+  assert (Hf : fst (r_start r) = fst (fst (sparse_bounds (c0 :: rest)))) by (rewrite <- Hb; reflexivity).
+  rewrite Hf. unfold sparse_bounds. cbv zeta. cbn [fst fold_left]. unfold pos in *.
+  destruct (row c0 <? U32MAX) eqn:E.
+  - apply fold_rmin_const. apply sorted_first_min. exact Hs.
+  - replace U32MAX with (row c0) at 1 by lia. apply fold_rmin_const. apply sorted_first_min. exact Hs.
+Qed.
+
+(* the old documented precondition (sorted by row, at most u32::MAX rows and columns) implies
+   the current one *)
+Lemma pre_pre_sparse : forall (r0 : range T) (cs : list (pos * T)),
+  pre r0 (OFromSparse cs) -> pre_sparse cs.
+Proof.
+  intros r0 cs Hpre. cbn [pre] in Hpre. destruct Hpre as (_ & Hbnd & Hbox).
+  split; [exact Hbnd|].
+  destruct (tight_bbox (map fst cs)) as [[s e]|]; [|exact I].
+  destruct Hbox as [H1 H2]. unfold box_cells.
+  apply N.le_trans with (U32MAX * U32MAX).
+  - apply N.mul_le_mono; lia.
+  - unfold U32MAX, U64MAX. lia.
+Qed.
+
+Lemma from_sparse_spec_sec : forall (cs : list (pos * T)),
+    pre empty (OFromSparse cs) ->
+    exists r, from_sparse d cs = Ok r /\ Wf r /\
+      rect r = tight_bbox (map fst cs) /\
+      forall q, get_value r q = if in_rect r q then Some (last_write d cs q) else None.
+Proof.
+  intros cs Hpre. apply from_sparse_spec_unsorted_sec. exact (pre_pre_sparse Hpre).
+Qed.
+
 End FromSparse.
+
+Lemma from_sparse_spec_unsorted :
+  forall (T : Type) (d : T) (cs : list (pos * T)),
+    pre_sparse cs ->
+    exists r, from_sparse d cs = Ok r /\ Wf r /\
+      rect r = tight_bbox (map fst cs) /\
+      forall q, get_value r q = if in_rect r q then Some (last_write d cs q) else None.
+Proof. intros T d. apply from_sparse_spec_unsorted_sec. Qed.
+
+Lemma from_sparse_start_row_sorted :
+  forall (T : Type) (d : T) (c0 : pos * T) (rest : list (pos * T)) (r : range T),
+    pre empty (OFromSparse (c0 :: rest)) ->
+    from_sparse d (c0 :: rest) = Ok r -> fst (r_start r) = fst (fst c0).
+Proof.
+  intros T d c0 rest r Hp Hr. cbn [pre] in Hp. destruct Hp as (Hs & Hb & _).
+  apply (from_sparse_start_row_sorted_sec d Hs); [|exact Hr]. apply Hb. left. reflexivity.
+Qed.
+
+Lemma from_sparse_total :
+  forall (T : Type) (d : T) (cs : list (pos * T)),
+    exists r, from_sparse d cs = Ok r /\
+      N.of_nat (length (r_inner r)) = requested_from_sparse cs /\
+      (cs <> [] -> (r_start r, r_end r) = sparse_bounds cs).
+Proof. intros T d. apply from_sparse_total_sec. Qed.
 
 Lemma from_sparse_spec :
   forall (T : Type) (d : T) (cs : list (pos * T)),
@@ -1213,3 +1450,198 @@ Qed.
 Example window_pre_ex :
   Wf (mkRange (1, 1) (2, 3) [1; 2; 3; 4; 5; 6]) /\ le2 (0, 2) (1, 4) /\ box_cells (0, 2) (1, 4) <= U32MAX.
 Proof. split; [right|]; vm_compute; intuition discriminate. Qed.
+
+(* ---------------------------------------------------------------------------------------- *)
+(* Totality (C06 material): which calls can still panic                                     *)
+(* ---------------------------------------------------------------------------------------- *)
+Lemma from_sparse_no_panic : forall (T : Type) (d : T) (cs : list (pos * T)),
+  from_sparse d cs <> Panic.
+Proof.
+  intros T d cs H. destruct (from_sparse_total d cs) as (r & Hr & _). congruence.
+Qed.
+
+Lemma new_no_panic : forall (T : Type) (d : T) (s e : pos),
+  le2 s e -> box_cells s e <= U64MAX -> new d s e <> Panic.
+Proof. intros T d s e Hle Hb H. apply (new_panic_iff d s e) in H. apply H. split; assumption. Qed.
+
+(* Range::range panics exactly when its Range::new does *)
+Lemma window_panic_iff : forall (T : Type) (d : T) (r : range T) (s e : pos), Wf r ->
+  (window d r s e = Panic <-> ~ (le2 s e /\ box_cells s e <= U64MAX)).
+Proof.
+  intros T d r s e HWf. split.
+  - intros Hp [Hle Hb]. destruct (window_spec_usize d HWf Hle Hb) as (w & Hw & _). congruence.
+  - intros Hn. apply (new_panic_iff d s e) in Hn. unfold window. rewrite Hn. reflexivity.
+Qed.
+
+Lemma window_no_panic : forall (T : Type) (d : T) (r : range T) (s e : pos),
+  Wf r -> le2 s e -> box_cells s e <= U64MAX -> window d r s e <> Panic.
+Proof. intros T d r s e HWf Hle Hb H. apply (window_panic_iff d s e HWf) in H. apply H. split; assumption. Qed.
+
+Lemma set_value_no_panic : forall (T : Type) (d : T) (r : range T) (p : pos) (v : T),
+  Wf r -> pre r (OSetValue p v) -> set_value d r p v <> Panic.
+Proof.
+  intros T d r p v HWf Hp H. destruct (set_value_spec d HWf Hp) as (r' & Hr' & _). congruence.
+Qed.
+
+(* the documented panic of set_value: a position above or left of the start corner *)
+Lemma set_value_panics_before_start : forall (T : Type) (d : T) (r : range T) (p : pos) (v : T),
+  is_empty r = false -> ~ le2 (r_start r) p -> set_value d r p v = Panic.
+Proof.
+  intros T d [[sr sc] [er ec] l] [pr pc] v He Hn. unfold le2 in Hn. cbn [r_start fst snd] in Hn.
+  unfold set_value. cbn [r_start r_end]. rewrite He.
+  destruct ((sr <=? pr) && (sc <=? pc)) eqn:E; [exfalso; apply Hn; lia|reflexivity].
+Qed.
+
+(* The allocation of from_sparse: two cells are enough to request any area.  (The real code
+   then panics with "capacity overflow" or aborts in the allocator: C06 finding
+   lib.rs::from_sparse::alloc.) *)
+Lemma requested_from_sparse_two : forall (T : Type) (v : T) (n : N), n <= U32MAX ->
+  requested_from_sparse [((0, 0), v); ((n, n), v)] = N.min ((n + 1) * (n + 1)) U64MAX.
+Proof.
+  intros T v n Hn. unfold requested_from_sparse, sparse_bounds. cbv zeta. cbn [fold_left fst snd].
+  unfold sat_mul_usize.
+  destruct (0 <? U32MAX) eqn:E0; [|unfold U32MAX in E0; lia].
+  destruct (0 <? 0) eqn:E1; [lia|].
+  destruct (n <? 0) eqn:E2; [lia|].
+  destruct (0 <? n) eqn:E3; [rewrite N.sub_0_r; reflexivity|].
+  replace n with 0 by lia. reflexivity.
+Qed.
+
+Lemma requested_from_sparse_unbounded : forall (n : N), n <= U32MAX ->
+  exists cs : list (pos * N),
+    length cs = 2%nat /\
+    (forall c, In c cs -> fst (fst c) <= U32MAX /\ snd (fst c) <= U32MAX) /\
+    requested_from_sparse cs = N.min ((n + 1) * (n + 1)) U64MAX.
+Proof.
+  intros n Hn. exists [((0, 0), 1); ((n, n), 1)]. split; [reflexivity|]. split.
+  - intros c [<-|[<-|[]]]; cbn [fst snd]; unfold U32MAX in *; lia.
+  - apply requested_from_sparse_two. assumption.
+Qed.
+
+Lemma from_sparse_alloc_refuted :
+  exists cs : list (pos * N),
+    length cs = 2%nat /\
+    (forall c, In c cs -> fst (fst c) <= U32MAX /\ snd (fst c) <= U32MAX) /\
+    requested_from_sparse cs = U64MAX.
+Proof.
+  destruct (@requested_from_sparse_unbounded U32MAX (N.le_refl _)) as (cs & H1 & H2 & H3).
+  exists cs. split; [assumption|]. split; [assumption|]. rewrite H3. vm_compute. reflexivity.
+Qed.
+
+(* ---------------------------------------------------------------------------------------- *)
+(* Histories under the preconditions of the current code                                    *)
+(* ---------------------------------------------------------------------------------------- *)
+Lemma rect_fits32 : forall (T : Type) (r : range T) s e,
+  rect r = Some (s, e) -> dims32 s e -> fits32 r.
+Proof.
+  intros T r s e Hr Hd. unfold rect in Hr. destruct (is_empty r) eqn:E; [discriminate|].
+  injection Hr as <- <-. right. exact Hd.
+Qed.
+
+Lemma rect_none_fits32 : forall (T : Type) (r : range T), rect r = None -> fits32 r.
+Proof.
+  intros T r Hr. unfold rect in Hr. destruct (is_empty r) eqn:E; [left; assumption|discriminate].
+Qed.
+
+Lemma dims32_box : forall s e : pos, dims32 s e -> box_cells s e <= U64MAX.
+Proof.
+  intros s e [H1 H2]. unfold box_cells. apply N.le_trans with (U32MAX * U32MAX).
+  - apply N.mul_le_mono; lia.
+  - unfold U32MAX, U64MAX. lia.
+Qed.
+
+Lemma pre_pre_head : forall (T : Type) (r : range T) (o : op T), pre r o -> pre_head r o.
+Proof.
+  intros T r o Hp. destruct o as [s e| |cs|p v|s e]; cbn [pre pre_head] in *.
+  - destruct Hp as [Hle Hb]. split; [assumption|]. unfold box_cells, dims32 in *.
+    destruct Hle as [H1 H2]. split; nia.
+  - exact I.
+  - destruct Hp as (_ & Hb & Hbox). split; assumption.
+  - exact Hp.
+  - destruct Hp as [Hle Hb]. split; [assumption|]. unfold box_cells, dims32 in *.
+    destruct Hle as [H1 H2]. split; nia.
+Qed.
+
+Lemma step_wf_head : forall (T : Type) (d : T) (r0 : range T) (o : op T),
+  Wf r0 -> fits32 r0 -> pre_head r0 o ->
+  exists r1, step d r0 o = Ok r1 /\ Wf r1 /\ fits32 r1.
+Proof.
+  intros T d r0 o HWf Hf Hp. destruct o as [s e| |cs|p v|s e]; cbn [step].
+  - cbn [pre_head] in Hp. destruct Hp as [Hle Hd].
+    destruct (new_spec_usize d Hle (dims32_box Hd)) as (r1 & H1 & H2 & H3 & _).
+    exists r1. split; [assumption|]. split; [assumption|]. exact (rect_fits32 _ H3 Hd).
+  - exists empty. split; [reflexivity|]. split; left; reflexivity.
+  - cbn [pre_head] in Hp. destruct Hp as [Hbnd Hbox].
+    assert (Hps : pre_sparse cs).
+    { split; [assumption|]. destruct (tight_bbox (map fst cs)) as [[s e]|]; [|exact I].
+      apply dims32_box. assumption. }
+    destruct (from_sparse_spec_unsorted d Hps) as (r1 & H1 & H2 & H3 & _).
+    exists r1. split; [assumption|]. split; [assumption|].
+    destruct (tight_bbox (map fst cs)) as [[s e]|].
+    + exact (rect_fits32 _ H3 Hbox).
+    + exact (rect_none_fits32 _ H3).
+  - destruct (@set_value_spec T d r0 p v HWf Hp) as (r1 & H1 & H2 & H3 & _).
+    exists r1. split; [assumption|]. split; [assumption|].
+    destruct (bbox (rect r0) p) as [s' e'] eqn:Eb.
+    apply (rect_fits32 _ H3). cbn [pre_head] in Hp. unfold rect, fits32 in *.
+    destruct (is_empty r0) eqn:Ee.
+    + cbn [bbox] in Eb. injection Eb as <- <-. unfold dims32. rewrite !N.sub_diag.
+      unfold U32MAX. lia.
+    + destruct Hp as [Hp|([Hl1 Hl2] & Hp1 & Hp2)]; [discriminate|].
+      destruct Hf as [Hf|[Hf1 Hf2]]; [discriminate|].
+      destruct (r_start r0) as [sr sc], (r_end r0) as [er ec], p as [pr pc].
+      cbn [bbox fst snd] in *. injection Eb as <- <-. unfold dims32. cbn [fst snd]. lia.
+  - cbn [pre_head] in Hp. destruct Hp as [Hle Hd].
+    destruct (@window_spec_usize T d r0 s e HWf Hle (dims32_box Hd)) as (r1 & H1 & H2 & H3 & _).
+    exists r1. split; [assumption|]. split; [assumption|]. exact (rect_fits32 _ H3 Hd).
+Qed.
+
+(* every history that respects the preconditions of the current code (from_sparse cells in any
+   order) runs without panic through well-formed states with fewer than 2^32 rows and columns *)
+Lemma range_wf_history_head :
+  forall (T : Type) (d : T) (ops : list (op T)) (r0 : range T),
+    Wf r0 -> fits32 r0 -> pre_head_all d r0 ops ->
+    exists r, run d r0 ops = Ok r /\ Wf r /\ fits32 r.
+Proof.
+  intros T d ops. induction ops as [|o ops IH]; intros r0 HWf Hf Hpre.
+  - exists r0. split; [reflexivity|split; assumption].
+  - cbn [pre_head_all] in Hpre. destruct Hpre as [Hp Hrest].
+    destruct (step_wf_head d o HWf Hf Hp) as (r1 & Hs & HWf1 & Hf1).
+    destruct (IH r1 HWf1 Hf1 (Hrest r1 Hs)) as (r & Hr & HWfr & Hfr).
+    exists r. split; [|split; assumption]. cbn [run]. rewrite Hs. cbn [obind]. exact Hr.
+Qed.
+
+Example from_sparse_unsorted_pre_ex :
+  pre_sparse [((4, 1), 6); ((2, 3), 5); ((2, 1), 4); ((3, 0), 0)] /\
+  ~ sorted_by_row [((4, 1), 6); ((2, 3), 5); ((2, 1), 4); ((3, 0), 0)].
+Proof.
+  split.
+  - split; [|vm_compute; intuition discriminate].
+    intros c [<-|[<-|[<-|[<-|[]]]]]; vm_compute; intuition discriminate.
+  - cbn [sorted_by_row fst]. intros [H _]. vm_compute in H. apply H. reflexivity.
+Qed.
+
+Example history_head_nonvacuous :
+  let ops := [OFromSparse [((4, 1), 6); ((2, 3), 5); ((2, 1), 4)]; OSetValue (5, 5) 7;
+              OWindow (0, 0) (3, 3); ONew (1, 1) (2, 3); OEmpty; OSetValue (3, 3) 1] in
+  Wf (@empty N) /\ fits32 (@empty N) /\ pre_head_all 0 (@empty N) ops /\
+  exists r, run 0 (@empty N) ops = Ok r /\ r_inner r = [1].
+Proof.
+  cbv zeta. split; [left; reflexivity|]. split; [left; reflexivity|]. split.
+  - cbn [pre_head_all pre_head].
+    split.
+    { split; [|vm_compute; intuition discriminate].
+      intros c [<-|[<-|[<-|[]]]]; vm_compute; intuition discriminate. }
+    intros r1 E1. vm_compute in E1. injection E1 as <-.
+    split; [right; vm_compute; intuition discriminate|]. intros r2 E2. vm_compute in E2. injection E2 as <-.
+    split; [vm_compute; intuition discriminate|]. intros r3 E3. vm_compute in E3. injection E3 as <-.
+    split; [vm_compute; intuition discriminate|]. intros r4 E4. vm_compute in E4. injection E4 as <-.
+    split; [exact I|]. intros r5 E5. vm_compute in E5. injection E5 as <-.
+    split; [left; reflexivity|]. intros r6 E6. exact I.
+  - eexists. split; vm_compute; reflexivity.
+Qed.
+
+Example new_usize_pre_ex :
+  le2 (0, 0) (70000, 70000) /\ box_cells (0, 0) (70000, 70000) <= U64MAX /\
+  ~ box_cells (0, 0) (70000, 70000) <= U32MAX.
+Proof. vm_compute. intuition discriminate. Qed.
